@@ -65,7 +65,8 @@ def run_control(path, props_filter, run_tests):
         if kind == "violation":
             to_run = [p for p in (props or have) if p in have]
         else:
-            to_run = [p for p in (props or have) if p in have]
+            # a behaviour-preserving edit must stay silent everywhere
+            to_run = list(have) if os.environ.get("CTL_SILENT_ALL", "1") == "1" else [p for p in (props or have) if p in have]
         if props_filter:
             to_run = [p for p in to_run if p in props_filter]
         flagged, details = [], {}
@@ -99,6 +100,8 @@ def main():
     paths = a.paths or [VERIF + "/controls", VERIF + "/seeded"]
     files = []
     for p in paths:
+        if not os.path.exists(p):
+            continue
         if os.path.isdir(p):
             for root, _, fs in sorted(os.walk(p)):
                 for f in sorted(fs):
